@@ -55,6 +55,13 @@ def specStep (kd : Kind) (s : Ideal) : Op → Ideal × Out
   | .keys => (s, .keys (s.entries.map (·.key)))
   | .items => (s, .items (s.entries.map (fun e => (e.key, e.val))))
   | .stats => (s, .stats s.entries.length (total s.entries) s.capacity s.evictions)
+  -- a store whose value cannot be sized fails and leaves the cache as it was
+  | .setF _ => (s, .panic)
+  | .setGetRemovedF _ => (s, .panic)
+  | .setIfAbsentF k =>
+    match find? k s.entries with
+    | some e => (s.touch e, .unit)
+    | none => (s, .panic)
 
 /-- the most-recent-first reading of "fits": keep entries from the hot end while they cumulatively fit -/
 def takeFit : Int → List Entry → List Entry
